@@ -169,6 +169,12 @@ class Tree:
                 port = rng.choice(["512", "8191", "600"] if svc else ["8192", "99999", "123456789012345678901234567890"])
         elif bad == "dots":
             r = rng.random()
+            if r < 0.45:
+                # five, six or seven dot-components; the fourth from the end numeric (looks like a port-ID) or not
+                lead = [rng.choice(["node", "vendor", "Copy", "of", "7", "6201", "x1", ""]) for _ in range(rng.choice([1, 1, 2, 3]))]
+                fourth = rng.choice([port or "6200", "6200", "0", "Status", "ns"])
+                return ".".join(lead + [fourth, short, smj, smn, suffix]), svc
+            r = rng.random()
             if r < 0.2:
                 return "%s.%s.%s" % (short, smj, suffix), svc          # two parts
             if r < 0.4:
@@ -479,6 +485,63 @@ def gen_case(rng, tier):
     return case
 
 
+def gen_shadow_case(rng):
+    """Two or three roots with different names below container directories; sub-namespace directories that are spelled like
+    the other roots; absolute (or cwd-relative) targets and BARE root names in every order: strategy 4 must take the first
+    directory of the path that carries one of the names, whatever the order of the list."""
+    import itertools
+    t = Tree(rng)
+    names = rng.sample(ROOT_NAMES, rng.choice([2, 2, 3]))
+    roots = []
+    for i, nm in enumerate(names):
+        roots.append([rng.choice(CONTAINERS) + str(i)] + [rng.choice(CONTAINERS) for _ in range(rng.choice([0, 1]))] + [nm])
+    t.roots = roots
+    files = []
+    for r in roots:
+        others = [n for n in names if n != r[-1]]
+        for _ in range(rng.choice([1, 2])):
+            depth = rng.choice([1, 1, 2, 3])
+            dirs_ = [rng.choice(SUB_NAMES) for _ in range(depth)]
+            dirs_[rng.randrange(depth)] = rng.choice(others)          # the shadowing sub-namespace
+            dirs_ = [d for d in dirs_ if d != r[-1]] or [rng.choice(others)]
+            name, svc = t.basename()
+            f = {"p": r + dirs_ + [name], "svc": svc}
+            if not any(g["p"][:len(f["p"])] == f["p"] or f["p"][:len(g["p"])] == g["p"] for g in t.files):
+                t.files.append(f)
+                files.append((f["p"], r))
+    case = {"files": t.files, "dirs": [], "calls": [], "meta": {"planted": "shadow"}}
+    if not files:
+        return gen_shadow_case(rng)
+    for gi in range(2):
+        pairs = rng.sample(files, min(len(files), rng.choice([1, 1, 2])))
+        gkey = "s%d:" % gi + ",".join("/".join(fp) for fp, _ in pairs)
+        iroots = []
+        for _, r in pairs:
+            if r not in iroots:
+                iroots.append(r)
+        orders = list(itertools.permutations(names))
+        rng.shuffle(orders)
+        for order in orders[:4]:
+            cwd = rng.choice([[], roots[0][:1], rng.choice(roots)[:-1]])
+            tl = []
+            for fp, r in pairs:
+                rel = rel_to(cwd, fp)
+                tl.append([False, rel] if rel and rng.random() < 0.4 else [True, fp])
+            rl = [[False, [n]] for n in order]
+            if rng.random() < 0.3:
+                rl = [x for x in rl if x[1][0] in {r[-1] for _, r in pairs}] or rl
+            rng.shuffle(tl)
+            gk = gkey
+            if any(list(cwd) + [n] in [list(d) for d in all_dirs(case)] and list(cwd) + [n] not in roots for n in names) \
+                    or walk_up_hazard(cwd, tl, rl, iroots, t.files):
+                gk = None
+            case["calls"].append({"api": "files", "cwd": cwd, "targets": tl, "roots": rl, "lookups": [], "gkey": gk, "iroots": iroots})
+        # the same files with their roots given as paths
+        case["calls"].append({"api": "files", "cwd": [], "targets": [[True, fp] for fp, _ in pairs], "roots": [[True, r] for r in iroots],
+                              "lookups": [], "gkey": gkey, "iroots": iroots})
+    return case
+
+
 def simple_case(files, calls, dirs=None):
     return {"files": [{"p": p, "svc": s} for p, s in files], "dirs": dirs or [], "calls": calls}
 
@@ -546,6 +609,26 @@ def corpus():
     out.append(simple_case([(["a", "a", "ns", "X.1.0.dsdl"], False)], [
         fcall([], [[False, ["a", "ns", "X.1.0.dsdl"]]], [[False, ["a", "ns"]]]),
         fcall(["a"], [[False, ["a", "ns", "X.1.0.dsdl"]]], [[False, ["a", "ns"]]])]))
+    # five and more dot-components are not a file name of the shape, whatever stands at the port-ID position (seeded C15-3)
+    for nm in ["node.6200.Status.1.0.dsdl", "vendor.node.6200.Status.1.0.dsdl", "6201.6200.Status.1.0.dsdl", "Copy.of.6200.Status.1.0.dsdl",
+               "a.b.Status.1.0.dsdl", "0.0.Status.1.0.dsdl", ".6200.Status.1.0.dsdl"]:
+        out.append(simple_case([(["r", "ns", nm], False), (["r", "ns", "Fine.1.0.dsdl"], False)], [
+            fcall([], [[True, ["r", "ns", nm]]], [[True, ["r", "ns"]]]),
+            fcall(["r"], [[False, ["ns", nm]]], [[False, ["ns"]]]),
+            fcall(["r"], [[False, ["ns", "Fine.1.0.dsdl"]]], []),
+            ncall([], [True, ["r", "ns"]])]))
+    # a sub-namespace spelled like another root: bare names are looked for along the PATH, not along the list (seeded C15-2)
+    Br, Nd = ["ws", "acme", "uavcan", "Bridge.1.0.dsdl"], ["vendor", "uavcan", "Node.1.0.dsdl"]
+    ir = [Br[:2], Nd[:2]]
+    out.append(simple_case([(Br, False), (Nd, False)], [
+        fcall([], [[True, Br]], [[False, ["uavcan"]], [False, ["acme"]]], gkey="shadow", iroots=ir),
+        fcall([], [[True, Br]], [[False, ["acme"]], [False, ["uavcan"]]], gkey="shadow", iroots=ir),
+        fcall([], [[True, Br]], [[False, ["acme"]]], gkey="shadow", iroots=ir),
+        fcall([], [[True, Br]], [[True, Br[:2]]], gkey="shadow", iroots=ir),
+        fcall(["vendor"], [[True, Br]], [[False, ["uavcan"]], [False, ["acme"]]], gkey="shadow", iroots=ir),
+        fcall([], [[False, Br]], [[False, ["uavcan"]], [False, ["acme"]]], gkey="shadow", iroots=ir),
+        fcall([], [[True, Br], [True, Nd]], [[False, ["uavcan"]], [False, ["acme"]]], gkey="shadow2", iroots=ir),
+        fcall([], [[True, Nd], [True, Br]], [[False, ["acme"]], [False, ["uavcan"]]], gkey="shadow2", iroots=ir)]))
     # services: the port range and the name length are those of services
     out.append(simple_case([(["ns", "511.S.1.0.dsdl"], True), (["ns", "512.Q.1.0.dsdl"], True)], [
         fcall([], [[False, ["ns", "511.S.1.0.dsdl"]]], []), fcall([], [[False, ["ns", "512.Q.1.0.dsdl"]]], []), ncall([], [False, ["ns"]])]))
@@ -565,8 +648,8 @@ def generate(rng, tier):
     cases = corpus()
     streams = ["corpus"] * len(cases)
     n = 900 if tier == "quick" else 12000
-    for _ in range(n):
-        cases.append(gen_case(rng, tier))
+    for k in range(n):
+        cases.append(gen_shadow_case(rng) if k % 10 == 9 else gen_case(rng, tier))
         streams.append("random")
     return cases, streams
 
